@@ -67,6 +67,26 @@ def gen_history(rng: _pyrandom.Random, max_ops: int = 12, max_rows: int = 40, ma
     n_ops = rng.randint(1, max_ops)
     ops: list[dict] = []
     wide = force == "wide" or (force is None and rng.random() < big / 2)
+    if force == "offset":
+        # the first batch is labelled base..base+n-1 (fit(X, reinsert_indices=...)); later operations re-insert / refine
+        # with initial_mol = base; no further fits (implicit labels would continue at num_fitted)
+        base = rng.choice([1, 7, 100, 1000])
+        rows = gen_rows(rng, F, rng.randint(5, max_rows))
+        ops.append({"op": "fit", "F": F, "rows": rows, "form": rng.choice(FORMS), "dtype": "uint8", "labels": list(range(base, base + len(rows)))})
+        for _ in range(rng.randint(1, 5)):
+            nm = rng.choice(["refine", "refine", "recluster", "setmerge", "setthr", "delint"])
+            if nm == "refine":
+                ops.append({"op": "refine", "n": rng.choice([1, 1, 2, 3]), "xform": rng.choice(["array", "path", "paths"]), "packed": rng.random() < 0.5})
+            elif nm == "recluster":
+                ops.append({"op": "recluster", "it": rng.choice([1, 2]), "extra": rng.choice([0.0, 0.05, -0.1]), "shuffle": rng.random() < 0.5,
+                            "seed": rng.randint(0, 10**6), "stop": False})
+            elif nm == "setmerge":
+                ops.append({"op": "setmerge", "crit": rng.choice(CRITS), "tol": rng.choice([None] + TOLS), "thr": rng.choice([None] + THRS), "bf": None})
+            elif nm == "setthr":
+                ops.append({"op": "setthr", "thr": rng.choice(THRS)})
+            else:
+                ops.append({"op": "delint"})
+        return {"cfg": cfg, "F": F, "ops": ops}
     if wide:
         # a node with more than 255 entries: branching factor 300, near-duplicates that do not merge
         F = max(F, 24)
@@ -81,11 +101,12 @@ def gen_history(rng: _pyrandom.Random, max_ops: int = 12, max_rows: int = 40, ma
             if wide and i == 0:
                 proto = [1 if rng.random() < 0.7 else 0 for _ in range(F)]
                 rows = [[b ^ (1 if rng.random() < 0.04 else 0) for b in proto] for _ in range(rng.choice([310, 330]))]
-            elif (force == "big" and i == 0) or rng.random() < big:
-                # a large tight group: clusters that cross 127/128 and 255/256 members (width promotion)
+            elif (force in ("big", "big255") and i == 0) or rng.random() < big:
+                # a large tight group: clusters that cross 127/128 and 255/256 members (width promotion), or sit exactly
+                # at the top of a counter width (255) when they are exported and re-imported
                 proto = [1 if rng.random() < 0.6 else 0 for _ in range(F)]
-                nbig = rng.choice([130, 200, 257, 300])
-                fl = rng.choice([0.0, 0.01, 0.03])
+                nbig = 255 if force == "big255" else rng.choice([130, 200, 255, 257, 300])
+                fl = 0.0 if force == "big255" else rng.choice([0.0, 0.01, 0.03])
                 rows = [[b ^ (1 if rng.random() < fl else 0) for b in proto] for _ in range(nbig)]
             else:
                 rows = gen_rows(rng, F, rng.randint(1, max_rows))
@@ -100,6 +121,17 @@ def gen_history(rng: _pyrandom.Random, max_ops: int = 12, max_rows: int = 40, ma
                 rows[k] = [rng.randint(0, 1) for _ in range(badF)]
                 op["form"] = "unpacked-list"
                 op["dtype"] = "uint8"
+            if "labels" not in op and rng.random() < 0.04 and all(len(r) == F for r in op["rows"]):
+                # explicit labels (fit(X, reinsert_indices=...)): arbitrary numbers, duplicates allowed
+                kind = rng.choice(["shifted", "duplicates", "arbitrary"])
+                n_ = len(op["rows"])
+                if kind == "shifted":
+                    b_ = rng.choice([3, 50, 1000])
+                    op["labels"] = list(range(b_, b_ + n_))
+                elif kind == "duplicates":
+                    op["labels"] = [rng.randrange(max(1, n_ // 2)) for _ in range(n_)]
+                else:
+                    op["labels"] = [rng.randrange(5000) for _ in range(n_)]
             ops.append(op)
         elif name == "refine":
             ops.append({"op": "refine", "n": rng.choice([0, 1, 1, 2, 3, 4]) if rng.random() > 0.05 else -1,
@@ -130,6 +162,15 @@ def gen_history(rng: _pyrandom.Random, max_ops: int = 12, max_rows: int = 40, ma
             ops.append({"op": "setbf", "bf": rng.choice(BFS)})
         else:
             ops.append({"op": name})
+    if force == "big255":
+        cfg["thr"] = min(cfg["thr"], 0.65)
+        if cfg["crit"] == "never-merge":
+            cfg["crit"] = "diameter"
+        follow = rng.choice([[{"op": "recluster", "it": 1, "extra": 0.0, "shuffle": False, "seed": 0, "stop": False}],
+                             [{"op": "refine", "n": 0, "xform": "array", "packed": False}],
+                             [{"op": "fit", "F": F, "rows": [[1 - b for b in ops[0]["rows"][0]] for _ in range(257)], "form": "unpacked-array", "dtype": "uint8"},
+                              {"op": "refine", "n": 1, "xform": "array", "packed": False}]])
+        ops[1:1] = follow
     return {"cfg": cfg, "F": F, "ops": ops}
 
 
@@ -173,6 +214,8 @@ class Session:
         self.data: list[list[int]] = []  # rows by label since the last reset
         self.tree = None
         self.labels_contiguous = True
+        self.base = 0   # label of data[0]: non-zero when the first fit carried the labels base..base+n-1
+        self.labels: list[int] = []   # every label inserted since the last reset (implicit or explicit), in insertion order
 
     # -- construction ---------------------------------------------------------------
     def construct(self) -> tuple[str, str]:
@@ -203,7 +246,7 @@ class Session:
             return f"FIT F={op['F']} labels={lab} rows={rows_arg(op['F'], op['rows'])}"
         if k == "refine":
             srt = 1 if op.get("xform") == "paths" else 0
-            return f"REFINE n={op['n']} im=0 F={self.F} srt={srt} rows={rows_arg(self.F, self.data)}"
+            return f"REFINE n={op['n']} im={self.base} F={self.F} srt={srt} rows={rows_arg(self.F, self.data)}"
         if k == "recluster":
             ps = "-"
             if perms:
@@ -256,7 +299,7 @@ class Session:
                     X = np.packbits(X, axis=1)
                 xform = op.get("xform", "array")
                 if xform == "array" or len(X) == 0:
-                    t.refine_inplace(X, initial_mol=0, input_is_packed=packed, n_largest=op["n"])
+                    t.refine_inplace(X, initial_mol=self.base, input_is_packed=packed, n_largest=op["n"])
                 else:
                     import tempfile, shutil
                     from pathlib import Path
@@ -272,7 +315,7 @@ class Session:
                             for i, part in enumerate(parts):
                                 np.save(tmp / f"p{i}.npy", part)
                                 arg.append(tmp / f"p{i}.npy")
-                        t.refine_inplace(arg, initial_mol=0, input_is_packed=packed, n_largest=op["n"])
+                        t.refine_inplace(arg, initial_mol=self.base, input_is_packed=packed, n_largest=op["n"])
                     finally:
                         shutil.rmtree(tmp, ignore_errors=True)
             elif k == "recluster":
@@ -320,14 +363,27 @@ class Session:
         except Exception as e:  # noqa: BLE001
             ans = err_name(e)
         # bookkeeping of the data the estimator holds (labels are 0.. since the last reset)
+        if k == "fit":
+            added_ = max(t.num_fitted_fps - before, 0)
+            self.labels.extend(list(op["labels"])[:added_] if op.get("labels") is not None else range(before, before + added_))
+        elif k == "reset":
+            self.labels = []
         if k == "fit" and op.get("labels") is None:
             added = t.num_fitted_fps - before
             self.data.extend(op["rows"][:max(added, 0)])
+            if self.base != 0 and added > 0:
+                self.labels_contiguous = False     # implicit labels continue at num_fitted, not at base + n
         elif k == "fit":
-            self.labels_contiguous = False
+            lab = list(op["labels"])
+            if not self.data and before == 0 and ans == "ok" and lab == list(range(lab[0], lab[0] + len(op["rows"]))):
+                self.base = lab[0]                 # an offset labelling of the first batch: base .. base+n-1
+                self.data.extend(op["rows"])
+            else:
+                self.labels_contiguous = False
         elif k == "reset":
             self.data = []
             self.labels_contiguous = True
+            self.base = 0
         return ans, perms
 
     def step(self, op: dict) -> tuple[str, str, str]:
